@@ -566,6 +566,10 @@ struct E1 : Engine {
 		sp.p_eintr = (unsigned)std::max<int64_t>(0,std::min<int64_t>(plan.geti("p_eintr"),200)); sp.p_spurious = (unsigned)std::max<int64_t>(0,std::min<int64_t>(plan.geti("p_spurious"),300));
 		sp.stdio_track = "/cppcms_uploads_"; if(plan.has("disk_fail_at")){ const J &fa = plan.get("disk_fail_at"); for(size_t i=0;i<fa.size() && i<8;i++) sp.stdio_fail_at.push_back((uint32_t)std::max<int64_t>(0,std::min<int64_t>(fa.a[i].as_int(),100000))); sp.stdio_sticky = plan.geti("disk_sticky") != 0; }
 		sp.max_steps = 6000000; sp.text_trace = plan.geti("text_trace");
+		// a reader that takes a few bytes per step needs steps in proportion to what it has to read: the limit exists to catch runs that make no progress, not long ones
+		{ uint64_t extra = 0; const J &pc = plan.get("conns"); for(size_t ci=0;ci<pc.size() && ci<16;ci++){ const J &jc = pc.a[ci]; const J &rp = jc.get("read_pace"); int64_t pace = 1 << 20; for(size_t i=0;i<rp.size();i++) if(rp.a[i].as_int() > 0) pace = std::min<int64_t>(pace,rp.a[i].as_int()); pace = std::min<int64_t>(pace,std::max<int64_t>(1,jc.geti("cap_to_client",4096)));
+			const J &ex = jc.get("ex"); for(size_t k=0;k<ex.size() && k<16;k++) if(ex.a[k].gets("kind") == "writer") extra += (uint64_t)script_body(normalise_script(ex.a[k].gets("script")),0).size() / (uint64_t)pace; }
+		  sp.max_steps += std::min<uint64_t>(extra,1000000) * 80; }
 		simk::begin(sp);
 		const J &cfg = plan.get("cfg");
 		int rt = (int)(((cfg.geti("reactor") % 3) + 3) % 3);
